@@ -562,6 +562,74 @@ class ConcurrentBlocks(SubCheck):
         io_selftest(env)
 
 
+class FanoutConcurrentBlocks(ConcurrentBlocks):
+    """Two clients run FanoutCache.transact() blocks while a third writes plainly, each with its own FanoutCache object on
+    one directory.  Every shard is locked for a block, so blocks must be atomic against everything and must not deadlock."""
+
+    name = 'fanout_concurrent_blocks'
+
+    def examples(self, tier):
+        return 60 if tier == 'quick' else 3000
+
+    def strategy(self, tier):
+        @st.composite
+        def case(draw):
+            base = draw(conc_case())
+            # a second block client
+            block2 = [draw(c05.op_strategy(1, i)) for i in range(draw(st.integers(1, 3)))]
+            block2 = [op for op in block2 if op[0] not in ('list', 'close')] or [('set', 'y', ('s', 'c1.0'))]
+            progs = list(base['progs'])
+            progs[1] = [('block', tuple(block2), draw(st.booleans()))]
+            if len(progs) < 3:
+                progs.append([draw(c05.op_strategy(2, 0))])
+            progs = [[op for op in prog if op[0] != 'close'] or [('len',)] for prog in progs]
+            return dict(base, progs=progs, mode='own', shards=draw(st.sampled_from([2, 3, 8])))
+
+        return case()
+
+    def execute(self, case, env):
+        import diskcache
+
+        n = len(case['progs'])
+
+        def open_clients(path):
+            fcs = [diskcache.FanoutCache(path, shards=case['shards'], timeout=0, disk_min_file_size=64) for _ in range(n)]
+            for k, spec in case['init'].items():
+                fcs[0].set(k, c05.mk(spec))
+            return fcs, fcs
+
+        def warm(fc):
+            for shard in fc._shards:
+                shard._sql
+
+        calls, sched = run_scheduled(env, case['progs'], case['schedule'], open_clients, do_op, 'C06', warm=warm, final_ops=c05.FINAL_OPS[:7], max_steps=20000)
+        if sched.limit_hit:
+            return {'nontrivial': False, 'classes': ['step-limit']}
+        mark_interleaved(calls, sched.trace)
+        init_state = c05.init_state_of(case['init'])
+        lin = [c for c in calls if c.op[0] != 'list']
+        for c in lin:
+            if c.result[0] == 'exc' and c.result[1] not in ('KeyError',) and c.op[0] != 'setbad':
+                raise Violation('C06/concurrent/unexpected-exception/%s' % c.result[1], 'call %r\n%s' % (c, fmt(calls)))
+
+        def skippable(c):
+            if c.op[0] in ('get', 'getitem', 'getexp') and c05.is_miss(c):
+                k = c05.op_key(c.op)
+                for o in lin:
+                    if o is c or o.client == c.client or not overlaps(o, c):
+                        continue
+                    inner = o.op[1] if o.op[0] == 'block' else [o.op]
+                    if any(i[0] in c05.WRITES and c05.op_key(i) == k for i in inner):
+                        return True
+            return False
+
+        if linearize(lin, init_state, model_apply, lambda s: s, skippable) is None:
+            raise Violation('C06/concurrent/not-atomic/fanout', 'no order with each FanoutCache.transact() block as ONE atomic call explains these results (initial %r):\n%s' % (init_state, fmt(calls)))
+        blocks = [c for c in lin if c.op[0] == 'block']
+        both = len(blocks) >= 2 and overlaps(blocks[0], blocks[1])
+        return {'nontrivial': both, 'classes': ['shards=%d' % case['shards']] + (['blocks-overlap'] if both else [])}
+
+
 class ProcessBlocks(ConcurrentBlocks):
     """The block runs in one OS process, the other clients in their own processes."""
 
@@ -618,4 +686,4 @@ class ProcessBlocks(ConcurrentBlocks):
         return {'nontrivial': bool(foreign), 'classes': ['processes', 'aborting' if block.op[2] else 'committing']}
 
 
-SUBCHECKS = [CacheBlocks(), FanoutBlocks(), PersistentBlocks(), ConcurrentBlocks(), ProcessBlocks()]
+SUBCHECKS = [CacheBlocks(), FanoutBlocks(), PersistentBlocks(), ConcurrentBlocks(), FanoutConcurrentBlocks(), ProcessBlocks()]
